@@ -1,8 +1,9 @@
 /-
-C17 — termination of the scan: with enough fuel the walk never runs out of it (under the supported
-configurations: the only `tmp` mount is the output directory, no mount above the output path).
-The measure: (symlink budget `n`, depth left below the physical position, entries left in the
-current directory), lexicographic, written as one natural number.
+C17 — termination of the scan: with enough fuel the walk never runs out of it, for every host tree
+and every configuration. The measure: (symlink budget `n`, depth left below the physical position,
+entries left in the current directory), lexicographic, written as one natural number. Since fix
+f009595 `walkMountsBelow` hands its caller's budget (capped) to the mounts below, so re-entering the
+output directory from a collection mounted above it costs a follow like any other jump.
 -/
 import ArvVerif.Proofs.C17_Mount
 namespace ArvVerif.C17
@@ -17,19 +18,26 @@ def physDepth (h : Host) (cfg : Cfg) (src : Path) : Nat :=
   | _ => depthBound h
 
 
+/-- fuel that suffices for a host call with budget `n` at physical depth `D - r` -/
+def needHost (h : Host) (cfg : Cfg) (n r : Nat) : Nat := n * cL h cfg + (r + 1) * cS h + cB cfg
+
 /-- fuel that suffices for a call -/
 def need (h : Host) (cfg : Cfg) : Call → Nat
   | .mount _ src n below =>
-    if below = true ∨ (srcMount cfg src).map (·.1) = some cfg.ctrOut then big h cfg n else 1
-  | .below _ _ ms => ms.length + 2
-  | .host _ src n _ => n * cL h + (depthBound h - physDepth h cfg src + 1) * cS h + cB cfg
+    if below = true then big h cfg n
+    else if (srcMount cfg src).map (·.1) = some cfg.ctrOut then needHost h cfg n (depthBound h) + 1
+    else 1
+  | .below _ src n ms =>
+    if ProperPrefix src cfg.ctrOut then ms.length + 3 + needHost h cfg (min n 1) (depthBound h)
+    else ms.length + 2
+  | .host _ src n _ => needHost h cfg n (depthBound h - physDepth h cfg src)
   | .children _ src n names =>
-    names.length + 1 + (n * cL h + (depthBound h - physDepth h cfg src) * cS h + cB cfg)
+    names.length + 1 + (n * cL h cfg + (depthBound h - physDepth h cfg src) * cS h + cB cfg)
 
 /-- what holds of every call the scan makes -/
 def Inv (h : Host) (cfg : Cfg) : Call → Prop
   | .mount .. => True
-  | .below _ src ms => ¬ ProperPrefix src cfg.ctrOut ∧ ∀ e ∈ ms, e ∈ cfg.mounts
+  | .below _ _ _ ms => ∀ e ∈ ms, e ∈ cfg.mounts
   | .host _ src _ _ => cfg.ctrOut.isPrefixOf src = true
   | .children _ src _ names =>
     cfg.ctrOut.isPrefixOf src = true ∧
@@ -52,15 +60,34 @@ theorem bind_eq_ok {α β : Type} (r : Res α) (f : α → Res β) (b : β) (hb 
   | unmodelled => simp [Res.bind] at hb
   | fuel => simp [Res.bind] at hb
 
+theorem needHost_ge (h : Host) (cfg : Cfg) (n r : Nat) : cS h + cB cfg ≤ needHost h cfg n r := by
+  unfold needHost
+  have : 1 * cS h ≤ (r + 1) * cS h := Nat.mul_le_mul_right _ (by omega)
+  omega
+
+theorem needHost_mono (h : Host) (cfg : Cfg) (n r r' : Nat) (hr : r ≤ r') :
+    needHost h cfg n r ≤ needHost h cfg n r' := by
+  unfold needHost
+  have : (r + 1) * cS h ≤ (r' + 1) * cS h := Nat.mul_le_mul_right _ (by omega)
+  omega
+
+theorem needHost_min (h : Host) (cfg : Cfg) (n r : Nat) : needHost h cfg (min n 1) r ≤ needHost h cfg n r := by
+  unfold needHost
+  have : min n 1 * cL h cfg ≤ n * cL h cfg := Nat.mul_le_mul_right _ (Nat.min_le_left _ _)
+  omega
+
 theorem need_pos (h : Host) (cfg : Cfg) (c : Call) : 1 ≤ need h cfg c := by
   cases c with
-  | mount dest src n below => simp only [need]; split <;> simp [big]
-  | below dest src ms => simp [need]
+  | mount dest src n below =>
+    simp only [need]
+    split
+    · simp [big]
+    · split <;> omega
+  | below dest src n ms => simp only [need]; split <;> omega
   | host dest src n inc =>
-    simp only [need, cS, cB]
-    have : 1 * (h.length + 2) ≤ (depthBound h - physDepth h cfg src + 1) * (h.length + 2) :=
-      Nat.mul_le_mul_right _ (by omega)
-    omega
+    simp only [need]
+    have := needHost_ge h cfg n (depthBound h - physDepth h cfg src)
+    simp only [cS] at this; omega
   | children dest src n names => simp only [need]; omega
 
 theorem isPrefixOf_append_right (a b c : Path) (h : a.isPrefixOf b = true) : a.isPrefixOf (b ++ c) = true := by
@@ -93,7 +120,7 @@ theorem physDepth_child (h : Host) (cfg : Cfg) (src p : Path) (c : Name) (n : No
     rw [hostPath_child cfg src c hp, hcnt, h2]; simp
   · have := get_len h _ _ hg; simpa using this
 
-theorem walk_ne_fuel (h : Host) (cfg : Cfg) (wf : HostWF h) (hs : supported cfg = true) :
+theorem walk_ne_fuel (h : Host) (cfg : Cfg) (wf : HostWF h) :
     ∀ (fuel : Nat) (c : Call) (st : Plan), Inv h cfg c → need h cfg c ≤ fuel →
       walk h cfg fuel c st ≠ .fuel := by
   intro fuel
@@ -114,19 +141,18 @@ theorem walk_ne_fuel (h : Host) (cfg : Cfg) (wf : HostWF h) (hs : supported cfg 
           obtain ⟨hmem, hpre, hlen⟩ := srcMount_mem cfg src (root, m) hsm
           simp only
           have hcont : ∀ st' : Plan,
-              (if below = true then walk h cfg fuel (.below dest src cfg.mounts) st' else .ok st') ≠ .fuel := by
+              (if below = true then walk h cfg fuel (.below dest src n cfg.mounts) st' else .ok st') ≠ .fuel := by
             intro st'
             split
             · rename_i hb
               apply ih
-              · refine ⟨?_, fun e he => he⟩
-                intro hpp
-                exact supported_above cfg hs (root, m) hmem
-                  ⟨List.isPrefixOf_iff_prefix.mpr
-                    ((List.isPrefixOf_iff_prefix.mp hpre).trans (List.isPrefixOf_iff_prefix.mp hpp.1)),
-                   Nat.lt_of_le_of_lt (prefix_length_le _ _ hpre) hpp.2⟩
-              · simp only [need, hb, true_or, if_true, big, cB] at hn ⊢
-                omega
+              · exact fun e he => he
+              · simp only [need, hb, if_true, big] at hn
+                have h1 := needHost_min h cfg n (depthBound h)
+                simp only [need]
+                unfold needHost at h1 ⊢
+                simp only [cB] at hn h1 ⊢
+                split <;> omega
             · simp
           split
           · exact hcont st
@@ -136,13 +162,12 @@ theorem walk_ne_fuel (h : Host) (cfg : Cfg) (wf : HostWF h) (hs : supported cfg 
                 apply ih
                 · show cfg.ctrOut.isPrefixOf src = true
                   rw [← hr]; exact hpre
-                · have hneed : need h cfg (.mount dest src n below) = big h cfg n := by
-                    simp only [need, hsm, Option.map_some, hr, or_true, if_true]
-                  rw [hneed] at hn
-                  simp only [need, big] at hn ⊢
-                  have : (depthBound h - physDepth h cfg src + 1) * cS h ≤ (depthBound h + 1) * cS h :=
-                    Nat.mul_le_mul_right _ (by omega)
-                  omega
+                · have h1 := needHost_mono h cfg n (depthBound h - physDepth h cfg src) (depthBound h) (by omega)
+                  simp only [need] at hn ⊢
+                  split at hn
+                  · simp only [big] at hn; unfold needHost at h1 ⊢; omega
+                  · simp only [hsm, Option.map_some, hr, if_true] at hn
+                    omega
               · simp
             · split
               · simp
@@ -151,18 +176,19 @@ theorem walk_ne_fuel (h : Host) (cfg : Cfg) (wf : HostWF h) (hs : supported cfg 
                   | none => simp
                   | some c => exact hcont _
                 · simp
-    | below dest src ms =>
+    | below dest src n ms =>
       cases ms with
       | nil => rw [walk]; simp
       | cons e ms =>
         obtain ⟨mnt, m⟩ := e
-        obtain ⟨hpp, hsub⟩ := hinv
+        have hsub : ∀ e ∈ (mnt, m) :: ms, e ∈ cfg.mounts := hinv
         rw [walk]
-        have hrest : ∀ st', walk h cfg fuel (.below dest src ms) st' ≠ .fuel := by
+        have hrest : ∀ st', walk h cfg fuel (.below dest src n ms) st' ≠ .fuel := by
           intro st'
           apply ih
-          · exact ⟨hpp, fun e he => hsub e (List.mem_cons_of_mem _ he)⟩
-          · simp only [need, List.length_cons] at hn ⊢; omega
+          · exact fun e he => hsub e (List.mem_cons_of_mem _ he)
+          · simp only [need, List.length_cons] at hn ⊢
+            split at hn <;> simp_all <;> omega
         split
         · rename_i hc
           apply bind_ne_fuel
@@ -170,28 +196,32 @@ theorem walk_ne_fuel (h : Host) (cfg : Cfg) (wf : HostWF h) (hs : supported cfg 
             · trivial
             · have hm : (mnt, m) ∈ cfg.mounts := hsub _ (List.mem_cons_self ..)
               obtain ⟨m', hself⟩ := srcMount_self cfg (mnt, m) hm (by show 0 < mnt.length; have := hc.2.1; omega)
-              have hne : mnt ≠ cfg.ctrOut := by
-                intro heq
-                exact hpp ⟨by rw [← heq]; exact hc.1, by rw [← heq]; exact hc.2.1⟩
-              simp only [need, hself, Option.map_some, Option.some.injEq, hne, or_false,
-                Bool.false_eq_true, if_false] at hn ⊢
-              simp only [List.length_cons] at hn
-              omega
+              have hself' : srcMount cfg mnt = some (mnt, m') := hself
+              simp only [need, hself', Option.map_some, Option.some.injEq, Bool.false_eq_true, if_false,
+                List.length_cons, belowMaxSymlinks, Nat.zero_add] at hn ⊢
+              by_cases hpp : ProperPrefix src cfg.ctrOut
+              · simp only [hpp, if_true] at hn
+                split <;> omega
+              · simp only [hpp, if_false] at hn
+                have hne : mnt ≠ cfg.ctrOut := by
+                  intro heq
+                  exact hpp ⟨by rw [← heq]; exact hc.1, by rw [← heq]; exact hc.2.1⟩
+                simp only [hne, if_false]
+                omega
           · intro a _; exact hrest a
         · exact hrest st
     | host dest src n inc =>
       have hpre : cfg.ctrOut.isPrefixOf src = true := hinv
       rw [walk]
       have hB : cB cfg + 2 ≤ need h cfg (.host dest src n inc) := by
-        simp only [need, cS]
-        have : 1 * (h.length + 2) ≤ (depthBound h - physDepth h cfg src + 1) * (h.length + 2) :=
-          Nat.mul_le_mul_right _ (by omega)
-        omega
+        simp only [need]
+        have := needHost_ge h cfg n (depthBound h - physDepth h cfg src)
+        simp only [cS] at this; omega
       apply bind_ne_fuel
       · split
         · apply ih
-          · exact ⟨not_properPrefix_of_prefix _ _ hpre, fun e he => he⟩
-          · simp only [need]; simp only [cB] at hB; omega
+          · exact fun e he => he
+          · simp only [need, not_properPrefix_of_prefix _ _ hpre, if_false]; simp only [cB] at hB; omega
         · simp
       · intro st' _
         have hnm : namei h [] (cfg.hostOut ++ src.drop cfg.ctrOut.length) 0
@@ -213,14 +243,14 @@ theorem walk_ne_fuel (h : Host) (cfg : Cfg) (wf : HostWF h) (hs : supported cfg 
             · rename_i hn0
               apply ih
               · trivial
-              · simp only [need, true_or, if_true, big]
-                simp only [need] at hn
+              · simp only [need, if_true, big]
+                simp only [need, needHost] at hn
                 obtain ⟨k, rfl⟩ : ∃ k, n = k + 1 := ⟨n - 1, by omega⟩
-                have h1 : (k + 1) * cL h = k * cL h + cL h := Nat.succ_mul k (cL h)
+                have h1 : (k + 1) * cL h cfg = k * cL h cfg + cL h cfg := Nat.succ_mul k (cL h cfg)
                 have h2 : 1 * cS h ≤ (depthBound h - physDepth h cfg src + 1) * cS h :=
                   Nat.mul_le_mul_right _ (by omega)
                 simp only [Nat.add_sub_cancel]
-                have h3 : cL h = (depthBound h + 1) * cS h + 2 := rfl
+                have h3 : cL h cfg = (depthBound h + 1) * cS h + cB cfg + 2 := rfl
                 have h4 : 2 ≤ cS h := by simp [cS]
                 omega
           | dir =>
@@ -233,7 +263,7 @@ theorem walk_ne_fuel (h : Host) (cfg : Cfg) (wf : HostWF h) (hs : supported cfg 
                 rw [mem_sortNames] at hc
                 obtain ⟨nd, hmem⟩ := mem_children h p c hc
                 exact ⟨wf.clean _ hmem c (by simp), nd, get_of_mem h wf _ _ hmem⟩
-              · simp only [need, length_sortNames, hpd] at hn ⊢
+              · simp only [need, needHost, length_sortNames, hpd] at hn ⊢
                 have hk := length_children h p
                 have hlen : p.length ≤ depthBound h := namei_len h [] _ 0 p _ hst (by simp)
                 have h1 : (depthBound h - p.length + 1) * cS h = (depthBound h - p.length) * cS h + cS h :=
@@ -261,19 +291,19 @@ theorem walk_ne_fuel (h : Host) (cfg : Cfg) (wf : HostWF h) (hs : supported cfg 
               · obtain ⟨hcl, nd, hg⟩ := hall name (List.mem_cons_self ..)
                 obtain ⟨hpc, hle⟩ := physDepth_child h cfg src p name nd hpre hd hcl hg
                 have hpd : physDepth h cfg src = p.length := by unfold physDepth; rw [hd]
-                simp only [need, List.length_cons, hpd, hpc] at hn ⊢
+                simp only [need, needHost, List.length_cons, hpd, hpc] at hn ⊢
                 have : depthBound h - (p.length + 1) + 1 = depthBound h - p.length := by omega
                 rw [this]
                 omega
             · intro a _; exact hrest a
 
 
-theorem scan_ne_fuel (h : Host) (cfg : Cfg) (wf : HostWF h) (hs : supported cfg = true)
+theorem scan_ne_fuel (h : Host) (cfg : Cfg) (wf : HostWF h)
     (fuel : Nat) (hf : fuelBound h cfg ≤ fuel) : scan h cfg fuel ≠ .fuel := by
   unfold scan
-  apply walk_ne_fuel h cfg wf hs
+  apply walk_ne_fuel h cfg wf
   · trivial
-  · simp only [need, true_or, if_true]; exact hf
+  · simp only [need, if_true]; exact hf
 
 theorem bind_ne_unmodelled {α β : Type} (r : Res α) (f : α → Res β) (h1 : r ≠ .unmodelled)
     (h2 : ∀ a, f a ≠ .unmodelled) : r.bind f ≠ .unmodelled := by
@@ -283,8 +313,8 @@ theorem bind_ne_unmodelled {α β : Type} (r : Res α) (f : α → Res β) (h1 :
   | unmodelled => exact absurd rfl h1
   | fuel => simp [Res.bind]
 
-/-- in a supported configuration the walk never leaves the modelled part of the code -/
-theorem walk_ne_unmodelled (h : Host) (cfg : Cfg) (hs : supported cfg = true) :
+/-- in a runnable configuration the walk never leaves the modelled part of the code -/
+theorem walk_ne_unmodelled (h : Host) (cfg : Cfg) (hs : runnable cfg = true) :
     ∀ (fuel : Nat) (c : Call) (st : Plan), walk h cfg fuel c st ≠ .unmodelled := by
   intro fuel
   induction fuel with
@@ -304,7 +334,7 @@ theorem walk_ne_unmodelled (h : Host) (cfg : Cfg) (hs : supported cfg = true) :
           obtain ⟨hmem, _, _⟩ := srcMount_mem cfg src (root, m) hsm
           simp only
           have hcont : ∀ st' : Plan,
-              (if below = true then walk h cfg fuel (.below dest src cfg.mounts) st' else .ok st') ≠ .unmodelled := by
+              (if below = true then walk h cfg fuel (.below dest src n cfg.mounts) st' else .ok st') ≠ .unmodelled := by
             intro st'; split
             · exact ih _ _
             · simp
@@ -312,7 +342,7 @@ theorem walk_ne_unmodelled (h : Host) (cfg : Cfg) (hs : supported cfg = true) :
           · exact hcont st
           · split
             · rename_i hk
-              have : root = cfg.ctrOut := supported_tmp cfg hs (root, m) hmem hk
+              have : root = cfg.ctrOut := runnable_tmp cfg hs (root, m) hmem hk
               simp only [this, if_true]
               exact ih _ _
             · split
@@ -322,8 +352,8 @@ theorem walk_ne_unmodelled (h : Host) (cfg : Cfg) (hs : supported cfg = true) :
                   | none => simp
                   | some c => exact hcont _
                 · rename_i hk hw
-                  exact absurd ⟨by simpa using hk, by simpa using hw⟩ (supported_writable cfg hs (root, m) hmem)
-    | below dest src ms =>
+                  exact absurd ⟨by simpa using hk, by simpa using hw⟩ (runnable_writable cfg hs (root, m) hmem)
+    | below dest src n ms =>
       cases ms with
       | nil => rw [walk]; simp
       | cons e ms =>
